@@ -326,6 +326,7 @@ func reenactMain(args []string) {
 	nDone := fs.Int("done", 40, "complete schedules re-enacted")
 	seed := fs.Int64("seed", 1, "")
 	nm := fs.Int("mboxes", 3, "")
+	par := fs.Int("par", 4, "child processes in parallel")
 	fs.Parse(args[2:])
 	info, err := loadInfo(args[0])
 	if err != nil {
@@ -376,6 +377,8 @@ func reenactMain(args []string) {
 	}
 	sort.Strings(sigs)
 	races := map[string]string{}
+	chosenBy := map[string][]*Case{}
+	var all []*Case
 	for _, sig := range sigs {
 		l := bySig[sig]
 		sigCount[sig] = len(l)
@@ -403,6 +406,18 @@ func reenactMain(args []string) {
 				chosen = append(chosen, c)
 			}
 		}
+		chosenBy[sig] = chosen
+		all = append(all, chosen...)
+	}
+	rng := rand.New(rand.NewSource(*seed))
+	rng.Shuffle(len(done), func(i, j int) { done[i], done[j] = done[j], done[i] })
+	if len(done) > *nDone {
+		done = done[:*nDone]
+	}
+	all = append(all, done...)
+	prerun(all, *par)
+	for _, sig := range sigs {
+		chosen := chosenBy[sig]
 		reproduced := 0
 		var lastWhy string
 		for _, c := range chosen {
@@ -432,11 +447,6 @@ func reenactMain(args []string) {
 		}
 	}
 	// complete schedules: the real server must be able to follow what the model allows
-	rng := rand.New(rand.NewSource(*seed))
-	rng.Shuffle(len(done), func(i, j int) { done[i], done[j] = done[j], done[i] })
-	if len(done) > *nDone {
-		done = done[:*nDone]
-	}
 	followed, diverged := 0, 0
 	var divs []string
 	for _, c := range done {
@@ -547,7 +557,43 @@ func obsSig(o *Obs) string {
 // predicted deadlock was reproduced (every predicted-blocked command did not
 // complete and its goroutine sits in sync.(*Mutex).Lock for the predicted lock
 // at the predicted site).
+type reRes struct {
+	ok  bool
+	why string
+	obs *Obs
+	rr  map[string]string
+}
+
+var reCache = map[*Case]*reRes{}
+var reCacheMu sync.Mutex
+
+// prerun re-enacts the cases in parallel child processes (each mostly waits for its watchdog).
+func prerun(cases []*Case, par int) {
+	sem := make(chan struct{}, par)
+	var wg sync.WaitGroup
+	for _, c := range cases {
+		c := c
+		wg.Add(1)
+		sem <- struct{}{}
+		go func() {
+			defer wg.Done()
+			defer func() { <-sem }()
+			ok, why, obs, rr := reenactOne(c)
+			reCacheMu.Lock()
+			reCache[c] = &reRes{ok, why, obs, rr}
+			reCacheMu.Unlock()
+		}()
+	}
+	wg.Wait()
+}
+
 func reenactOne(c *Case) (bool, string, *Obs, map[string]string) {
+	reCacheMu.Lock()
+	if r, ok := reCache[c]; ok {
+		reCacheMu.Unlock()
+		return r.ok, r.why, r.obs, r.rr
+	}
+	reCacheMu.Unlock()
 	so, se, err := runChild("child-reenact", c, 25*time.Second)
 	rr := raceReports(se)
 	var obs Obs
@@ -846,7 +892,7 @@ func childReenact(path string) {
 		if st, ok := completed[p.S]; ok {
 			po.Completed, po.Status = true, st
 		} else {
-			fillBlocked(&po, evs, f.names, dump)
+			fillBlocked(&po, l, f.names, dump)
 		}
 		o.Procs = append(o.Procs, po)
 	}
@@ -857,41 +903,8 @@ func childReenact(path string) {
 }
 
 // fillBlocked finds what the goroutine(s) of session po.S hold and wait for.
-func fillBlocked(po *ProcObs, evs []Ev, names map[uintptr]string, dump string) {
-	type gs struct {
-		held []Ev
-		want *Ev
-	}
-	per := map[int64]*gs{}
-	for i := range evs {
-		e := &evs[i]
-		if e.Sess != po.S || e.Op == "cmd" {
-			continue
-		}
-		g := per[e.G]
-		if g == nil {
-			g = &gs{}
-			per[e.G] = g
-		}
-		switch e.Op {
-		case "want", "rwant":
-			g.want = e
-		case "acq", "racq":
-			g.want = nil
-			g.held = append(g.held, *e)
-		case "rel", "rrel":
-			for j := len(g.held) - 1; j >= 0; j-- {
-				if g.held[j].Mu == e.Mu {
-					g.held = append(g.held[:j], g.held[j+1:]...)
-					break
-				}
-			}
-		}
-	}
-	for gid, g := range per {
-		if g.want == nil {
-			continue
-		}
+func fillBlocked(po *ProcObs, l *Logger, names map[uintptr]string, dump string) {
+	for gid, g := range l.Holding(po.S) {
 		nm := func(e *Ev) string {
 			if n, ok := names[e.Mu]; ok {
 				return n
@@ -899,6 +912,7 @@ func fillBlocked(po *ProcObs, evs []Ev, names map[uintptr]string, dump string) {
 			return fmt.Sprintf("%s@%x", e.Cls, e.Mu)
 		}
 		po.WantName, po.WantCls, po.WantSite = nm(g.want), g.want.Cls, g.want.Site
+		po.HeldNames, po.HeldCls = nil, nil
 		for i := range g.held {
 			po.HeldNames = append(po.HeldNames, nm(&g.held[i]))
 			po.HeldCls = append(po.HeldCls, g.held[i].Cls)
@@ -975,6 +989,45 @@ func runTagged(w *World, s int, in Inst, tag string) (string, error) {
 		return "OK", nil
 	}
 	return "", fmt.Errorf("unknown mode %q", in.Mode)
+}
+
+// sigsMain summarises the stuck states of a TLC run without touching the server
+// (used to compare the reduced with the unreduced model).
+func sigsMain(args []string) {
+	info, err := loadInfo(args[0])
+	if err != nil {
+		fatal(err)
+	}
+	keys := map[string]int{}
+	sigs := map[string]int{}
+	err = vh.ReadTLines(args[1], func(b []byte) error {
+		var st TLCState
+		if err := json.Unmarshal(b, &st); err != nil {
+			return err
+		}
+		if st.Kind != "stuck" {
+			return nil
+		}
+		c, err := buildCase(&st, info, 3)
+		if err != nil {
+			return err
+		}
+		var parts []string
+		for _, p := range c.Procs {
+			if p.BlockedAt > 0 {
+				h := append([]string(nil), p.Held...)
+				sort.Strings(h)
+				parts = append(parts, fmt.Sprintf("s%d:%s>%s@%s", p.S, strings.Join(h, ","), p.Want, siteFileLine(p.Full[p.BlockedAt-1].Site)))
+			}
+		}
+		keys[c.W+" "+strings.Join(parts, " ")]++
+		sigs[c.Sig]++
+		return nil
+	})
+	if err != nil {
+		fatal(err)
+	}
+	out.Summary(map[string]interface{}{"keys": keys, "sigs": sigs})
 }
 
 func oneMain(path string) {
